@@ -26,13 +26,16 @@ pub struct Case {
     /// explicit hidden positions (overrides hidden_mask; for attribute counts above 8)
     #[serde(default)]
     pub hidden_list: Vec<usize>,
+    /// all hidden attributes carry the same value (the value of the first hidden one)
+    #[serde(default)]
+    pub eq_hidden: bool,
 }
 
 fn strat(nmax: usize, leaf_edits: usize) -> impl Strategy<Value = Case> {
     (any::<u16>(), 1usize..=nmax, 1u8..=31, prop::bool::weighted(0.3), prop::collection::vec(0u8..6, 5), any::<u32>(), prop::sample::select(vec![0u8, 0, 0, 1, 2, 3]))
         .prop_map(move |(key, n, hm, trusted, classes, seed, spare)| {
             let mask = (hm as usize % ((1 << n) - 1)) as u8 + 1; // 1 ..= 2^n - 1
-            Case { key, n, hidden_mask: mask, trusted, classes, seed, leaf_edits, spare, hidden_list: vec![] }
+            Case { key, n, hidden_mask: mask, trusted, classes, seed, leaf_edits, spare, hidden_list: vec![], eq_hidden: false }
         })
 }
 
@@ -93,6 +96,14 @@ where
     let mut st = (c.seed as u64) << 6 | 1;
     let bases = Bases::generate(pk, n + c.spare as usize);
     let vals: Vec<Integer> = (0..n).map(|i| attr(c.classes[i % c.classes.len()], &mut st)).collect();
+    let mut vals = vals;
+    if c.eq_hidden && hidden.len() >= 2 {
+        let first = vals[hidden[0]].clone();
+        for &i in &hidden[1..] {
+            vals[i] = first.clone();
+        }
+        rep.class("equal-hidden-values");
+    }
     let msgs: Vec<CL03Message> = vals.iter().cloned().map(CL03Message::new).collect();
     let revealed: Vec<CL03Message> = revealed_idx.iter().map(|&i| msgs[i].clone()).collect();
     let use_tp = c.trusted && cx.tp.is_some();
@@ -327,7 +338,7 @@ pub fn run(ctx: &Ctx, rep: &Report) -> Meta {
     for n in 1..=nmax {
         for mask in 1u8..(1 << n) {
             k += 1;
-            fixed.push(Case { key: (k * 9973) as u16, n, hidden_mask: mask, trusted: k % 3 == 0, classes: vec![5, 4, 5, (k % 6) as u8, 5], seed: (ctx.seed as u32).wrapping_add(k), leaf_edits: ctx.tier.pick(16, 0), spare: if k % 4 == 1 { 1 + (k % 3) as u8 } else { 0 }, hidden_list: vec![] });
+            fixed.push(Case { key: (k * 9973) as u16, n, hidden_mask: mask, trusted: k % 3 == 0, classes: vec![5, 4, 5, (k % 6) as u8, 5], seed: (ctx.seed as u32).wrapping_add(k), leaf_edits: ctx.tier.pick(16, 0), spare: if k % 4 == 1 { 1 + (k % 3) as u8 } else { 0 }, hidden_list: vec![], eq_hidden: mask.count_ones() >= 2 && k % 2 == 0 });
         }
     }
     for n in [6usize, 8] {
@@ -347,9 +358,42 @@ pub fn run(ctx: &Ctx, rep: &Report) -> Meta {
     }
     // every attribute count 9..=24 (quick) / 9..=48 (thorough) with two or three hidden positions including the last
     let sweep: Vec<Case> = (9..=ctx.tier.pick(24usize, 48usize))
-        .map(|n| Case { key: (n * 131) as u16, n, hidden_mask: 0, trusted: false, classes: vec![5, 4, 5, (n % 6) as u8, 5], seed: (ctx.seed as u32).wrapping_add(7000 + n as u32), leaf_edits: 8, spare: (n % 3) as u8, hidden_list: if n % 2 == 0 { vec![0, n - 1] } else { vec![1, n / 2, n - 1] } })
+        .map(|n| Case { key: (n * 131) as u16, n, hidden_mask: 0, trusted: false, classes: vec![5, 4, 5, (n % 6) as u8, 5], seed: (ctx.seed as u32).wrapping_add(7000 + n as u32), leaf_edits: 8, spare: (n % 3) as u8, hidden_list: if n % 2 == 0 { vec![0, n - 1] } else { vec![1, n / 2, n - 1] }, eq_hidden: n % 4 == 1 })
         .collect();
     par_items(ctx, rep, "attribute-count-sweep", &sweep, |c| with_cl!(suite, CS => check_one::<CS>(rep, "attribute-count-sweep", c, &cx)));
+    // volume: many honest issuance proofs of the cheapest shape (one attribute, hidden), each verified
+    {
+        let total = ctx.tier.pick(1000usize, 8000usize);
+        let ws: Vec<usize> = (0..16).collect();
+        par_items(ctx, rep, "volume", &ws, |&w| {
+            with_cl!(suite, CS => {
+                let key = &cx.keys[w % cx.keys.len()];
+                let pk = &key.pk;
+                let bases = Bases::generate(pk, 1);
+                let hidden = [0usize];
+                let mut st = ctx.seed ^ ((w as u64) << 32) | 3;
+                for k in 0..total / 16 {
+                    if rep.aborted() {
+                        break;
+                    }
+                    let msgs = vec![CL03Message::new(if k % 5 == 0 { attr(k as u8, &mut st) } else { attr_random(&mut st) })];
+                    let com = Commitment::<CL03<CS>>::commit_with_pk(&msgs, pk, &bases, Some(&hidden));
+                    let zk = match catch(|| ZKPoK::<CL03<CS>>::generate_proof(&msgs, com.cl03Commitment(), None, pk, &bases, None, &hidden)) {
+                        Ok(z) => z,
+                        Err(e) => return rep.fail("volume", "generate-proof-panicked", format!("#{} of worker {}: {}", k, w, e), json!({"worker": w})),
+                    };
+                    let c_issuer = CL03Commitment { value: com.cl03Commitment().value.clone(), randomness: Integer::new() };
+                    rep.eval("volume", 1);
+                    if !catch(|| zk.verify_proof(&c_issuer, None, pk, &bases, None, &hidden)).unwrap_or(false) {
+                        return rep.fail("volume", "honest-issuance-proof-rejected", format!("honest issuance proof #{} of worker {} (one hidden attribute) is refused", k, w),
+                            json!({"volume": {"pk": serde_json::to_value(pk).unwrap_or(json!(null)), "bases": serde_json::to_value(&bases).unwrap_or(json!(null)), "commitment": c_issuer.value.to_string(), "proof": serde_json::to_value(&zk).unwrap_or(json!(null))}}));
+                    }
+                }
+                rep.nontrivial("volume", &json!({"worker": w}));
+                Ok(())
+            })
+        });
+    }
     let le = ctx.tier.pick(24usize, 80usize);
     run_cases(ctx, rep, "issuance", ctx.tier.pick(40, 300), 30, || strat(nmax.max(4), le), |c| with_cl!(suite, CS => check_one::<CS>(rep, "issuance", c, &cx)));
     if ctx.tier == Tier::Thorough && !rep.aborted() {
@@ -368,13 +412,23 @@ pub fn run(ctx: &Ctx, rep: &Report) -> Meta {
                positive: verify_proof true (the issuer is given the commitment value only), proof survives JSON, blind_sign returns, the unblinded signature verifies on the full vector, re-issuing with a changed revealed attribute verifies on the new vector and not on the old; \
                negative: commitment to other attributes / C*b, another hidden set of the same size, hidden-position lists reaching beyond the attribute count (each refusal followed by a re-verification of the honest proof on the same thread), other bases, other issuer key, wrong trusted commitment: verify_proof false AND blind_sign refuses; \
                every integer leaf of the serialised proof perturbed by +1, -1, := 0, := sibling, one high bit flipped, +2^k for k in {128, 160, 256, 300} (16-24 sampled perturbations per proof in quick, all in thorough's fixed list): verify_proof false; every composite node of the serialised proof (sub-proof, array, array element) replaced by the node at the same path of a second honest proof for other hidden values (same key, bases, positions), for every second case: verify_proof false; \
-               n = 6 and 8 with first / last / all / alternating hidden sets; every attribute count 9..=24 (quick) / 9..=48 (thorough) with two or three hidden positions including the last; issuers with 0..3 more bases than attributes; a proof without the trusted-party sub-proof presented to an issuer that requires one, a sub-proof checked against another commitment key; non-trivial = hidden set != {0} (the crate's only tested configuration); evaluations = verifier / issuer decisions"
+               n = 6 and 8 with first / last / all / alternating hidden sets; every attribute count 9..=24 (quick) / 9..=48 (thorough) with two or three hidden positions including the last; volume: 1000 (quick) / 8000 (thorough) honest one-attribute issuance proofs each verified; issuers with 0..3 more bases than attributes; every second case with two or more hidden attributes gives them all the same value; a proof without the trusted-party sub-proof presented to an issuer that requires one, a sub-proof checked against another commitment key; non-trivial = hidden set != {0} (the crate's only tested configuration); evaluations = verifier / issuer decisions"
             .into(),
         assumptions: vec!["blind_sign refuses by panicking (by design): observed under catch_unwind".into(), "CL2048/CL3072 in thorough only (fixture primes)".into()],
     }
 }
 
 pub fn replay(ctx: &Ctx, rep: &Report, ck: &str, case: &Value) -> CheckResult {
+    if ck == "volume" {
+        let v = &case["volume"];
+        let perr = |m: &str| Fail { check: ck.into(), site: "replay-parse".into(), msg: m.into(), case: json!(null) };
+        let pk: CL03PublicKey = serde_json::from_value(v["pk"].clone()).map_err(|_| perr("pk"))?;
+        let bases: Bases = serde_json::from_value(v["bases"].clone()).map_err(|_| perr("bases"))?;
+        let cv: Integer = v["commitment"].as_str().and_then(|x| x.parse().ok()).ok_or_else(|| perr("commitment"))?;
+        let zk: ZKPoK<CL03<CL1024Sha256>> = serde_json::from_value(v["proof"].clone()).map_err(|_| perr("proof"))?;
+        let c_issuer = CL03Commitment { value: cv, randomness: Integer::new() };
+        return if catch(|| zk.verify_proof(&c_issuer, None, &pk, &bases, None, &[0usize])).unwrap_or(false) { Ok(()) } else { Err(Fail { check: ck.into(), site: "honest-issuance-proof-rejected".into(), msg: "the recorded honest proof is refused".into(), case: json!({"volume": "see file"}) }) };
+    }
     let c: Case = serde_json::from_value(case["case"].clone()).map_err(|e| Fail { check: ck.into(), site: "replay-parse".into(), msg: e.to_string(), case: case.clone() })?;
     let keys = key_pool(ClSuite::CL1024, 0, 3, ctx.seed);
     let tp = if c.trusted { Some(CL03CommitmentPublicKey::generate::<CL1024Sha256>(None, Some(8))) } else { None };
